@@ -297,7 +297,7 @@ def execute(wm, proto, frames, cuts, expected_dps, res=0, pause_at=0, idle=None,
   (for udp: datagram boundaries, aligned with frames).  Returns the trace record."""
   stream = b''.join(f['bytes'] for f in frames)
   # the default maximum frame length unless the stream contains an over-long frame (kept small on purpose)
-  run = Run(wm, proto, pickle_max=PICKLE_MAX if any(f['kind'] == 'over' for f in frames) else 2 ** 20, flow=bool(pause_at), idle=idle, failing=failing)
+  run = Run(wm, proto, pickle_max=PICKLE_MAX if any(f['kind'] == 'over' or f.get('exact') for f in frames) else 2 ** 20, flow=bool(pause_at), idle=idle, failing=failing)
   segs = []
   allids = {}
   nid = 0
